@@ -52,12 +52,31 @@ def gen_faults(items):
         return D('SAVE_METAS_SYNC_AFTER_WRITE', n, 'save_metas: number of `sync_directory()?` after atomic_write(meta.json)')
     items.append(save_metas_sync2)
 
-    # prepare_commit: recreate channel; take handles; join each, `?` on the result, restart that worker
+    # prepare_commit: recreate channel; take handles; join each worker; the first error is returned
+    # either at once — the remaining handles are dropped and no worker is restarted (0) — or after
+    # every handle was joined and a worker restarted for each (1)
     def prepare_commit():
         body = fn_body(iw, 'prepare_commit')
         ordered(body, [r'self\.recreate_document_channel\(\)', r'std::mem::take\(&mut self\.workers_join_handle\)',
-                       r'\.join\(\)', r'indexing_worker_result\?\s*;', r'self\.add_indexing_worker\(\)\?\s*;', r'self\.stamper\.stamp\(\)'], iw + '::prepare_commit')
-        return D('PREPARE_COMMIT_JOINS_AND_PROPAGATES', 1, 'prepare_commit: new channel; join every worker; first error returned; worker restarted after a clean join')
+                       r'\.join\(\)', r'self\.add_indexing_worker\(\)\?\s*;', r'self\.stamper\.stamp\(\)'], iw + '::prepare_commit')
+        m = re.search(r'for\s+worker_handle\s+in\s+former_workers_join_handle\s*\{', body)
+        if not m:
+            raise Fail(iw + '::prepare_commit: join loop not found')
+        i = m.end(); depth = 1
+        while depth and i < len(body):
+            depth += (body[i] == '{') - (body[i] == '}')
+            i += 1
+        loop = body[m.end():i - 1]
+        after = body[i:]
+        early = re.search(r'indexing_worker_result\?\s*;', loop) is not None and re.search(r'\.map_err\([^;]*\)\?\s*;', loop, flags=re.S) is not None
+        late = re.search(r'\?', re.sub(r'"[^"]*"', '""', loop).replace('self.add_indexing_worker()?', '')) is None and re.search(r'first_error', loop) is not None \
+            and re.search(r'if\s+let\s+Some\(\w+\)\s*=\s*first_error\s*\{\s*return\s+Err\(', after) is not None
+        if early == late:
+            raise Fail(iw + '::prepare_commit: the join loop is neither the early-return form nor the join-all-then-return form')
+        return '\n'.join([
+            D('PREPARE_COMMIT_JOINS_AND_PROPAGATES', 1, 'prepare_commit: new channel; join the workers; first error returned'),
+            D('PREPARE_COMMIT_RESTARTS_WORKERS', 1 if late else 0, 'prepare_commit: after a worker error no worker is restarted (0) / every worker is restarted before the error is returned (1)'),
+        ])
     items.append(prepare_commit)
 
     # add: refused when the bomb went off
